@@ -141,7 +141,7 @@ def _run_range(arg):
         except CaseTimeout as e:
             r = R(viol={'observed': 'timeout: %s' % e}, outcome='timeout')
         except Exception:
-            out['errors'].append({'case': case, 'traceback': traceback.format_exc()})
+            out['errors'].append({'case': case, 'traceback': ''.join(traceback.format_exception(*sys.exc_info()))})
             continue
         out['n'] += 1
         out['steps'] += r.steps
@@ -308,7 +308,7 @@ def run_check(prop, subs, tier, seed, level='model_checking', assumptions=(), ex
             again = True
         except Exception:
             again = False
-            harness_errors.append({'sub': sub.name, 'case': v['case'], 'traceback': traceback.format_exc()})
+            harness_errors.append({'sub': sub.name, 'case': v['case'], 'traceback': ''.join(traceback.format_exception(*sys.exc_info()))})
         if not again:
             harness_errors.append({'sub': sub.name, 'case': v['case'],
                                    'traceback': 'violation did not reproduce on re-execution: %r' % (v['viol'],)})
